@@ -142,6 +142,9 @@ const (
 	zvLocalASB = 65001
 )
 
+// zvSessBeforeA, if set, is called after the world and session B are up and before peer A is added (leak oracles).
+var zvSessBeforeA func()
+
 func zvSessStart(cfg zvSessCfg) *zvSess {
 	s := &zvSess{cfg: cfg, view: map[string]string{}}
 	s.w = zvNewWorld()
@@ -164,6 +167,9 @@ func zvSessStart(cfg zvSessCfg) *zvSess {
 	s.cB.deliver(zvwUpdate(nil, []zvwAttr{zvwOrigin(0), zvwASPath(true), zvwNextHop(10, 0, 0, 8), zvwLocalPref(100)}, zvwNLRI([]zvwPrefix{zvRB}, false)))
 	vsched.Settle()
 	// session A
+	if zvSessBeforeA != nil {
+		zvSessBeforeA()
+	}
 	s.pA = s.w.addPeer(cfg.A)
 	s.fA = s.pA.fsms[0]
 	peerA := zvPeerIP(cfg.A).String()
